@@ -60,7 +60,7 @@ def main(chk):
     ncold_mapped = sum(1 for c in table.values() for bym in c["cases"] for m in bym if m != "none")
     # 2. cache graphs
     depth = 5 if chk.quick else 6
-    selftest = c02.faulty_selftest(chk, SELFTEST_GROUP, 2, ["none", "s1s2", "n_s1"], cap)
+    selftest = c02.faulty_selftest(chk, SELFTEST_GROUP, 2, ["none", "s1s2", "n_s1"], cap, faults=("stale_params", "key_ignores_mapflag"))
     if "key_ignores_mapflag" not in selftest:
         chk.machinery("vacuous: map-flag self-test did not run")
     plans = pick_plans(names, rng, 6 if chk.quick else 24, depth)
